@@ -314,6 +314,105 @@ def c07(run):
     interp_trace(run, ["C07"], "histdoc", sizes(run, 40, 1500), has_readat_pair)
 
 
+def has_saveload(sc):
+    return any(e.get('ev') == 'saveload' for e in sc)
+
+
+def has_saveload_queue(sc):
+    return any(e.get('ev') == 'saveload' and e.get('obs', {}).get('queued') for e in sc)
+
+
+def c11(run):
+    run.cov["rule"] = ("programs with frequent save/load cycles (deflate on/off, retain_orphans on/off) on documents with "
+                       "conflicts, counters, lists, text, empty changes and queued orphans; after load: applied/heads/queue "
+                       "as before (Trace_Graph), identical document (Trace_Same), identical change bytes and second-save "
+                       "bytes (digests), identical state at historical heads (Trace_Interp ReadAt after reload); "
+                       "non-trivial = scenario with a save/load")
+    n = sizes(run, 120, 2500)
+    t = os.path.join(run.work, "reload.ndjson")
+    drive(["reload", run.seed, n, t])
+    run.validate("Trace_Graph.tla", ["C11"], t, "reload-graph")
+    run.validate("Trace_Same.tla", ["C11"], t, "reload-same")
+    run.validate("Trace_Interp.tla", ["C11"], t, "reload-hist")
+    count_nontrivial(run, t, has_saveload)
+    sample_scenario(run, t, has_saveload_queue)
+    t2 = os.path.join(run.work, "store.ndjson")
+    drive(["store", run.seed, sizes(run, 20, 300), t2])
+    run.validate("Trace_Storage.tla", ["C11"], t2, "store-layout", spec_kind="storage")
+
+
+def has_feed(sc):
+    return any(e.get('ev') == 'feed' for e in sc)
+
+
+def c12(run):
+    run.cov["rule"] = ("a writer (edits, merges from a second actor, empty changes) writes save() followed by 2-5 "
+                       "save_after(cursor) pieces; the concatenation is loaded strictly and partially; a reader equal to the "
+                       "writer at a random earlier piece is fed the later pieces through load_incremental in shuffled order "
+                       "with repeats, then everything again; Trace_Storage predicts every outcome from the logged chunk "
+                       "layout with the delivery rules of Graph.tla; non-trivial = scenario with out-of-order feeding")
+    mc_storage(run)
+    t2 = os.path.join(run.work, "store.ndjson")
+    drive(["store", run.seed, sizes(run, 60, 1500), t2])
+    run.validate("Trace_Storage.tla", ["C12"], t2, "store", spec_kind="storage")
+    count_nontrivial(run, t2, has_feed)
+    sample_scenario(run, t2, has_feed, maxlen=30)
+
+
+def c13(run):
+    run.cov["rule"] = ("every byte offset of real append-only files (save + 2-5 incremental saves): strict and partial "
+                       "load of each prefix; Trace_Storage computes the expected outcome of each cut from the logged chunk "
+                       "boundaries (Storage!LoadResult); non-trivial = distinct (file, cut) pairs with the cut strictly "
+                       "inside a chunk")
+    mc_storage(run)
+    t2 = os.path.join(run.work, "store.ndjson")
+    drive(["store", run.seed, sizes(run, 40, 1000), t2])
+    run.validate("Trace_Storage.tla", ["C13"], t2, "store", spec_kind="storage")
+    ncuts = 0
+    for sc in scenarios(read_trace(t2)):
+        for e in sc:
+            if e.get('ev') == 'crash':
+                ncuts += len(e['cuts'])
+                for c in e['cuts']:
+                    if c['s'] != 'ok' and c['c'] > 0:
+                        run.nontrivial((sc[0].get('scn'), c['c']))
+                run.sample({"file_bytes": e['total'], "cuts": e['cuts'][:3] + e['cuts'][-2:]})
+    run.cov["evaluations"] = ncuts
+    run.cov["exhaustive"] = True
+    run.cov["explanation"] = "exhaustive over byte offsets per file; the set of files is sampled"
+
+
+def c14(run):
+    run.cov["rule"] = ("single-bit flips of real files (document chunk, compressed or not, followed by incremental change "
+                       "chunks): quick = all bits of the first 32 bytes + a seeded sample of 2000 bits per file, thorough = "
+                       "every bit; a flip must make strict load fail; outcomes ok-same / ok-different / panic are violations; "
+                       "non-trivial = distinct (file, bit) pairs")
+    t2 = os.path.join(run.work, "flip.ndjson")
+    drive(["storeflip", run.seed, sizes(run, 12, 150), t2, sizes(run, 2000, 10**9)])
+    run.validate("Trace_Storage.tla", ["C14"], t2, "flips", spec_kind="storage")
+    nf = 0
+    for sc in scenarios(read_trace(t2)):
+        for e in sc:
+            if e.get('ev') == 'flips':
+                nf += e['flipped']
+                run.sample({"total_bits": e['total_bits'], "flipped": e['flipped'], "rejected": e['rejected'], "bad": e['bad'][:3]})
+                for k in range(e['flipped']):
+                    pass
+                run._nontrivial.update((sc[0].get('scn'), k) for k in range(min(e['flipped'], 5000)))
+                if e.get('exhaustive'):
+                    run.cov["exhaustive"] = True
+    run.cov["evaluations"] = nf
+
+
+def mc_storage(run):
+    cfg = open(os.path.join(SPEC, "MC_Storage.cfg")).read()
+    r = tlc("Storage.tla", cfg, os.path.join(run.work, "mc-storage"), workers=2, timeout=600, deque=False)
+    if "No error has been found" not in r["out"]:
+        raise ToolError("design-level model checking of Storage.tla failed:\n" + r["out"][-2000:])
+    run.add_states(r)
+    run.step("mc:Storage", distinct=r.get("distinct"))
+
+
 def replay(run, path):
     """re-validate a recorded violating scenario"""
     from . import tlc_trace
@@ -333,4 +432,8 @@ REG = {
     "C01": ("model_checking", c01),
     "C03": ("model_checking", c03),
     "C07": ("model_checking", c07),
+    "C11": ("model_checking", c11),
+    "C12": ("model_checking", c12),
+    "C13": ("fault_enumeration", c13),
+    "C14": ("fault_enumeration", c14),
 }
